@@ -27,4 +27,13 @@ def run(tier):
     progs = gen.c14_scope(tier)
     cr.bounded_check(run_reject_scope, "ill-formed-embeddings", progs, gen.c14_accepted_hosts(),
                      f"{len(progs)} programs = 22 rules x violating snippets x embeddings; {len(gen.c14_accepted_hosts())} accepted controls", cr.known)
+    from contracts import cparse as _cparse
+    from bounded.contract_enum import run_contract_enum as _rce_parse
+    from bounded import pipeline as _pl_parse
+    _pl_parse.ensure_repo()
+    _sargs = _cparse.statement_arg_sets()
+    cr.bounded_check(_rce_parse, "statement-forms-box", _cparse.statement_c, _sargs,
+                     f"{len(_sargs)} statement texts (loop headers with negative / named bounds and steps, value lists, declarations, memory writes with when / set / reset in both "
+                     "orders, place arguments and property dictionaries, function parameters, bundle forms): the real parser's tree carries exactly what the text says — S3 takes its trees "
+                     "from that parser (contract evaluated on the real DSLParser.parse)")
     return cr.finish()
